@@ -901,6 +901,23 @@ def scen_detect(ctx, M):
     if mname == 'vhdx' and p.get('regi'):
         for j, b in enumerate(b'regi'):
             fixed[HDR + j] = b
+    if mname == 'vhdx' and p.get('vhdx_image'):
+        # a complete well-formed VHDX: region table -> metadata table at
+        # 320 KiB -> size item 64 KiB further on
+        Mc = 320 * KiB
+        for j, b in enumerate(b'regi' + bytes(4) + (1).to_bytes(4, 'little')
+                              + bytes(4) + G_META +
+                              Mc.to_bytes(8, 'little') +
+                              (1 << 20).to_bytes(4, 'little') +
+                              (1).to_bytes(4, 'little')):
+            fixed[HDR + j] = b
+        tbl = b'metadata' + bytes(2) + (1).to_bytes(2, 'little') + \
+            bytes(20) + G_VDS + (65536).to_bytes(4, 'little') + \
+            (8).to_bytes(4, 'little') + bytes(8)
+        for j, b in enumerate(tbl):
+            fixed[Mc + j] = b
+        for j, b in enumerate((10 << 20).to_bytes(8, 'little')):
+            fixed[Mc + 65536 + j] = b
     overlay(ctx, fixed)
     N = pick_n(ctx)
     S = ctx.stream('S', N, fixed=fixed, default=p.get('default', 0),
@@ -937,7 +954,8 @@ def scen_detect(ctx, M):
     if rsize == 'sym':
         # >= 512: the text scan of the VMDK inspector makes every shorter
         # first read its own path (and needs a known header length)
-        rsize = ctx.int('rsize', 512, 65536)
+        rsize = ctx.int('rsize', p.get('rsize_min', 512),
+                        p.get('rsize_max', 65536))
         # at most `max_sym_reads` non-empty reads (each read position forks
         # against every region boundary)
         ctx.assume(rsize * p.get('max_sym_reads', 4) >= N)
@@ -1533,6 +1551,10 @@ def scen_cli(ctx, M):
             unsafe = OR(*fails.values()) if fails else False
             ctx.check('C02-cli-exit0-implies-safe-%s' % n,
                       NOT(AND(present[n], unsafe)))
+            # an image cut short of what its inspector needs is refused by
+            # safety_check and must not exit 0
+            ctx.check('C02-cli-exit0-implies-complete-%s' % n,
+                      NOT(AND(present[n], NOT(F.REFS[n].complete(S)))))
     else:
         ctx.goal('nonzero')
         ctx.check('C02-cli-exit-status', code == 1 or
